@@ -3,6 +3,7 @@ import Ivy.Drv.Heap
 import Ivy.Drv.Pump
 import Ivy.Drv.Loop
 import Ivy.Drv.Select
+import Ivy.Drv.Inotify
 
 def main (args : List String) : IO UInt32 := do
   match args with
@@ -11,4 +12,5 @@ def main (args : List String) : IO UInt32 := do
   | ["pump"] => Ivy.Drv.Pump.run; return 0
   | ["loop"] => Ivy.Drv.Loop.run; return 0
   | ["select"] => Ivy.Drv.Select.run; return 0
+  | ["inotify"] => Ivy.Drv.Inotify.run; return 0
   | _ => IO.eprintln "usage: ivyreplay <component>"; return 2
